@@ -253,3 +253,7 @@ def run(ctx):
     n = r8merge.check(ctx, ctx.need_fn(prog, "merge_requests"), "R8.merge",
                       {"off": "*segs[%d].off", "len": "*segs[%d].len", "addr": "*segs[%d].buf_addr", "n": "*nsegs"})
     ctx.require(n >= 1000, "R8.merge: only %d segment lists evaluated" % n)
+    from rules import r8flat
+    ctx.rule("R8.flatten", "vars_flatten addresses exactly the requested elements, in packed-buffer order (bounded)")
+    nf = r8flat.check(ctx, ctx.need_fn(prog, "vars_flatten"), "R8.flatten", "segs")
+    ctx.require(nf >= 200, "R8.flatten: only %d requests evaluated" % nf)
